@@ -433,10 +433,16 @@ public:
     void
     clear()
     {
-        iterator pos = begin();
-        while (pos != end())
+        // A list that has never held anything has no head node, and
+        // nothing to clear.  begin() would create the node, and clean-up
+        // code, which calls this, must not allocate memory.
+        if (m_listHead != 0)
         {
-            freeNode(pos++.node());
+            iterator pos = begin();
+            while (pos != end())
+            {
+                freeNode(pos++.node());
+            }
         }
     }
 
